@@ -79,6 +79,18 @@ def gen(rng, tier):
             seq.append(",".join(base[x] for x in DNS_FIELDS))
         fault = "%d:%s" % (1 + rng.below(len(seq) - 1), rng.choice(["conflict", "fail", "exists"]))
         cases.append(dict(line="dns pre=none fault=%s seq=%s" % (fault, ";".join(seq)), tags=["dns-fault-on-update"]))
+    # one field of the Certificate-relevant part edited at a time, and the write that follows fails once (generic error / conflict):
+    # the retry must still bring the stored object to what a first-time synchronization creates
+    base0 = dict(secret="s1", host="a.ex", issuer="iss", cn="_", dur="_", renew="_", usages="_", group="_", kind="_", temp="1", label="_", cm="1")
+    for f in CERT_FIELDS:
+        if f in ("secret", "cm"):
+            continue
+        for v in CERT_VALUES[f]:
+            if v == base0[f]:
+                continue
+            b2 = dict(base0); b2[f] = v
+            for fk in ("fail", "conflict"):
+                cases.append(dict(line="crt pre=none fault=1:%s seq=%s;%s" % (fk, ",".join(base0[x] for x in CERT_FIELDS), ",".join(b2[x] for x in CERT_FIELDS)), tags=["cert-single-field-fault"]))
     if tier == "thorough":
         # every single-field edit of every field, exhaustively
         base = dict(secret="s1", host="a.ex", issuer="iss", cn="_", dur="_", renew="_", usages="_", group="_", kind="_", temp="0", label="_", cm="1")
